@@ -82,8 +82,8 @@ CHECKS["C10"] = dict(
     ref="4/C10")
 
 CHECKS["C13"] = dict(
-    text="Bounded symbolic model checking of one inductive step of every call history: from an arbitrary fitted model (the real fit on a symbolic corpus) the real transform runs on symbolic batches Y1, Y2 and Y1 again for NgramVectorizer (plain, masked, user dictionary), SkipgramVectorizer, TokenCooccurrenceVectorizer (plain, masked, user dictionary + mask), MultiSet / Timed / Ngram co-occurrence vectorizers, LZCompression, BytePairEncoding, EdgeList, InformationWeightTransformer and RowDenoisingTransformer; asserted on every path: the complete attribute state of the estimator after each transform equals the state before (deep comparison decided by the solver), the repeated transform(Y1) returns the same result, every list passed in still holds the same objects, and no store reaches a caller-owned array, sparse matrix or dictionary (purity monitors of the array / dict / sparse models: in-place sort_indices / eliminate_zeros / item writes are faults).",
-    note="Bounds: corpora of <= 3-4 tokens / characters / edges per call, matrices 2 x 2 (3 x 2 thorough). Writes-nothing-it-reads is the inductive step that extends to histories of any length. Not covered here: LabelledTreeCooccurrenceVectorizer, Histogram / KDE / Distribution / SlidingWindow / CountFeatureCompression, the random_state clause and the temporary-file clause of the optimal-transport classes (listed as uncovered in the evidence).",
+    text="Bounded symbolic model checking of one inductive step of every call history: from an arbitrary fitted model (the real fit on a symbolic corpus) the real transform runs on symbolic batches Y1, Y2 and Y1 again for NgramVectorizer (plain, masked, user dictionary), SkipgramVectorizer, TokenCooccurrenceVectorizer (plain, masked, user dictionary + mask), MultiSet / Timed / Ngram co-occurrence vectorizers, LZCompression, BytePairEncoding, EdgeList, InformationWeightTransformer and RowDenoisingTransformer; asserted on every path: the complete attribute state of the estimator after each transform equals the state before (deep comparison decided by the solver), the repeated transform(Y1) returns the same result, every list passed in still holds the same objects, and no store reaches a caller-owned array, sparse matrix or dictionary (purity monitors of the array / dict / sparse models: in-place sort_indices / eliminate_zeros / item writes are faults). Further cases: two fits of CountFeatureCompressionTransformer with the same symbolic integer random_state (0 included) seed the randomised SVD with that integer; the blockwise lot_vectors_sparse runs on a file-system model with a failure injected at a symbolic block and must leave no temporary file or directory behind (known finding F26); LabelledTreeCooccurrenceVectorizer with CSR and LIL adjacency input does not edit the caller's matrices.",
+    note="Bounds: corpora of <= 3-4 tokens / characters / edges per call, matrices 2 x 2 (3 x 2 thorough). Writes-nothing-it-reads is the inductive step that extends to histories of any length. Not covered here: Histogram / KDE / Distribution / SlidingWindow, the random_state handling of the optimal-transport classes, temporary files of the dense / generator / Sinkhorn block loops (listed as uncovered in the evidence).",
     ref="4/C13")
 
 CHECKS["C07"] = dict(
